@@ -189,6 +189,25 @@ def run(ctx):
     with cf.ThreadPoolExecutor(16) as ex:
         for st in list(ex.map(run_hist, items_h)) + list(ex.map(run_fuzz, items_f)):
             ctx.stats.merge(st)
+    # (d) the built-in collection at its capacity, in the ASan interpreter, each scenario in a process of its own
+    exe_b, hb, db = calls.build_harness(ctx.sdir, ba, tag="_builtin")
+    for mode, label in ((3, "file into the nearly full built-in collection"), (4, "AddCrystal without an error slot into the full built-in collection")):
+        ctx.stats.ev()
+        out, rc, err = calls.run(exe_b, "simple", [calls.line("@addcrystal", "i", (mode,))], ctx.sdir, "builtin%d" % mode)
+        case = dict(scenario=label, mode=mode)
+        if rc != 0 or len(out) != 1:
+            kind = "asan" if "AddressSanitizer" in err else ("ubsan" if "runtime error" in err else "crash")
+            head = [l for l in err.split("\n") if "runtime error:" in l or "ERROR: AddressSanitizer" in l or "SUMMARY:" in l]
+            ctx.stats.violation("builtin:%s:%s" % (kind, first_frame(err) or "exit%d" % rc), case, "refused without a memory error", "\n".join(head[:5]) + "\n" + err[:1200])
+            continue
+        r = calls.parse(out[0])
+        res = r.get("result") or ""
+        if mode == 3 and (r.get("err") is None or res != "i:0"):
+            ctx.stats.violation("builtin:file-accepted-past-capacity", case, "0 and an error", out[0][:200])
+        if mode == 4 and not (res.startswith("add4:rv=0;") and ";n=" in res and res.split(";n=")[1].split(";")[0] == res.split(";cap=")[1]):
+            ctx.stats.violation("builtin:grew-past-capacity-without-slot", case, "rv=0, n == capacity", res)
+        ctx.stats.nt()
+        ctx.stats.sample("builtin_capacity", dict(case, result=res[:60]), cap=2)
     ctx.rule = ("(a) the C03 sweep (all exported functions x exhaustive discrete / structured continuous / string / crystal arguments, configurations "
                 "A and B) under ASan+UBSan with an exact heap balance per call, suspicious balances confirmed by LeakSanitizer after 10 repetitions; "
                 "(b) rapidcheck histories (seeded, %d x %d cases, size <= %d) over parser / add_compound_data / NIST / nuclide / lists / symbols / "
